@@ -6,6 +6,8 @@ mod world;
 mod fw;
 mod interp;
 mod lattice;
+mod macros;
+mod monitor;
 mod props;
 
 use fw::*;
